@@ -225,6 +225,31 @@ theorem readN_err {n : Nat} {d : B} {p : Nat} {e : Err} (h : readN n d p = .erro
   · cases h
   · cases h; rfl
 
+theorem readN_err_len {n : Nat} {d : B} {p : Nat} {e : Err} (h : readN n d p = .error e) : d.length < p + n := by
+  unfold readN at h
+  split at h
+  · cases h
+  · omega
+
+theorem readU_err_len {w : Nat} {d : B} {p : Nat} {e : Err} (h : readU w d p = .error e) : d.length < p + w := by
+  unfold readU at h
+  split at h
+  · cases h
+  · rename_i e' h'; exact readN_err_len h'
+
+theorem readSkip_err_len {n : Nat} {d : B} {p : Nat} {e : Err} (h : readSkip n d p = .error e) : d.length < p + n := by
+  unfold readSkip at h
+  split at h
+  · cases h
+  · rename_i e' h'; exact readN_err_len h'
+
+/-- a failed read of a fixed size has cost at most what was left -/
+theorem fail_w_le {β : Type} {a b k : Nat} {d : B} {p : Nat} {x : CE (β × Nat)} {e : Err} (n : Nat)
+    (h : Cost a b k d p x) (hx : x.1 = .error e) (hs : d.length - p ≤ n) : x.2.w ≤ a * n + b := by
+  have := (h.of_error hx).2
+  have : a * (d.length - p) ≤ a * n := Nat.mul_le_mul_left a hs
+  omega
+
 theorem readNC_cost (n : Nat) {d : B} {p : Nat} : Cost 1 1 n d p (readNC n d p) := by
   unfold readNC
   refine prim_cost (fun v p' h => ?_) (fun e h => ?_)
